@@ -24,7 +24,7 @@ ID = "C10"
 LEVEL = "model_checking"
 
 BOUNDS = {"quick": (6, 2), "thorough": (7, 3)}   # (FULL_LIMIT blocks, K deviations)
-CROSSCHECK_STATES = 250   # programs explored with both explorer strategies (see schedx)
+CROSSCHECK_STATES = 120   # programs explored with both explorer strategies (see schedx)
 
 CORPUS: dict = {}
 
